@@ -1004,3 +1004,79 @@ Lemma storm_witness :
   sout_len (run_moves storm_cfg (sys_init storm_cfg) (storm_moves ++ [Deliver true 28 1000])) = 49%nat /\
   maxrecs storm_cfg = 16%nat.
 Proof. vm_compute. repeat split; reflexivity. Qed.
+
+(* ---------- the gap: ANY stale fragment re-elicits the HelloRetryRequest ---------- *)
+
+Definition carries_client_hello (d : dgram) : bool :=
+  existsb (fun r => match r_body r with Hs ht _ _ _ _ => N.eqb ht HT_CH | Ack _ => false end) d.
+
+(* as coded (fragment_buffer.go pushHandshakeFragments: message_seq < current => retransmission,
+   whatever the handshake type; fsm13.transitionAfterACK: peerRetransmit && replyOnly): a server that
+   has sent its HelloRetryRequest sends it again for ONE unprotected handshake record of ANY type
+   [ht], any fragment range, whose message_seq is below the reassembly sequence, as soon as
+   InitialRetransmitInterval/2 has passed since it last sent something *)
+Theorem stale_fragment_reanswers c e ht m fo fl tl sz now :
+  hrr_cfg c -> pre_cookie c e -> e_flight e = F2 ->
+  e_recvseq e <= e_fbcur e -> m < e_fbcur e -> has e (e_recvseq e) HT_CH 0 = false ->
+  c_initial c <= 2 * (now - e_lastsent e) ->
+  snd (on_datagram c e [{| r_ep := 0; r_body := Hs ht m fo fl tl; r_size := sz |}] now)
+  = pack c (fl_lookup F2 (c_fl c)).
+Proof.
+  intros Hc Hp Hf Hrs Hm Hnc Hrate. pose proof Hp as (P1&P2&P3&P4&P5&P6&P7).
+  destruct P7 as [(Q1&_) | (Q1&Q2&Q3&Q4&Q5)]; [rewrite Hf in Q1; discriminate|].
+  destruct (hrr_flags c (proj1 Hc)) as (Hr2&Hr0&Hs0&Hs2&Hl2&Hl4).
+  unfold on_datagram. cbn [process_records]. unfold process_record. cbn [r_ep r_body].
+  rewrite P3. cbn [N.eqb andb orb].
+  unfold push.
+  assert (Ha : fb_advance e = e).
+  { unfold fb_advance. destruct (N.ltb_spec (e_fbcur e) (e_recvseq e)); [lia | reflexivity]. }
+  rewrite Ha.
+  destruct (N.ltb_spec m (e_fbcur e)) as [_|]; [|lia].
+  cbn [N.leb N.compare fst snd orb negb andb]. rewrite P5.
+  change (set_toack e []) with (set_rx e (e_recvseq e) (e_fbcur e) (e_frags e) (e_cache e) (e_repoch e) (e_lepoch e) (e_queue e) []).
+  set (e0 := set_rx e _ _ _ _ _ _ _ []).
+  assert (Hp0 : pre_cookie c e0).
+  { eapply pre_cookie_transfer; [apply same_fsm_set_rx | | exact Hp]. unfold same_rx0; subst e0; cbn. rewrite P5. auto. }
+  unfold on_event. replace (e_fst e0) with Waiting by (subst e0; cbn; congruence).
+  assert (A6 : e_pending e0 = []) by (subst e0; cbn; exact P6).
+  rewrite (acknowledge_nil e0 A6). cbn [negb].
+  set (e2 := set_fsm e0 _ _ _ _ _ _ _ _ _ _).
+  assert (B1 : e_client e2 = false) by (subst e2 e0; cbn; exact P1).
+  assert (Bf : e_flight e2 = F2) by (subst e2 e0; cbn; exact Hf).
+  rewrite Bf, Hs2, B1. cbn [andb].
+  unfold parse. rewrite B1, Bf.
+  change (N.eqb F2 F0) with false. change (N.eqb F2 F2) with true. cbv iota.
+  replace (has e2 (e_recvseq e2) HT_CH 0) with false by (subst e2 e0; cbn; symmetry; exact Hnc).
+  change (N.eqb 0 0) with true. cbv iota.
+  unfold after_ack. cbn [andb].
+  replace (e_reply e2) with true by (subst e2 e0; cbn; congruence).
+  replace (e_lastsent e2) with (e_lastsent e) by (subst e2 e0; reflexivity).
+  destruct (N.ltb_spec (2 * (now - e_lastsent e)) (c_initial c)); [lia|].
+  rewrite do_send_server by (rewrite ?B1, ?Bf; auto).
+  cbn [snd app ack_dgram]. subst e2 e0. cbn [e_out set_fsm set_rx]. rewrite Q2. reflexivity.
+Qed.
+
+(* ... so "a HelloRetryRequest is sent only in direct response to a ClientHello" is FALSE of the
+   faithful model: after the first ClientHello (two fragments) and its HelloRetryRequest, a 1-byte
+   fragment of a Finished message (type 20, message_seq 0) handed to the server 600 ms later makes it
+   emit the HelloRetryRequest again (the DTLS 1.3 analogue of known finding F17) *)
+Definition stale_cfg : cfg := cfg13 g13_v13.
+Definition stale_state : ep :=
+  fst (run stale_cfg (ep_init stale_cfg false)
+           (map (fun d => IDgram d 0) (pack stale_cfg (fl_lookup F1 (c_fl stale_cfg))))).
+Definition stale_dgram : dgram := [{| r_ep := 0; r_body := Hs HT_FIN 0 0 1 32; r_size := 26 |}].
+
+Theorem hrr_only_for_client_hello_refuted :
+  exists (e : ep) (d : dgram) (now : N),
+    pre_cookie stale_cfg e /\ carries_client_hello d = false /\
+    snd (on_datagram stale_cfg e d now) = pack stale_cfg (fl_lookup F2 (c_fl stale_cfg)) /\
+    snd (on_datagram stale_cfg e d now) <> [].
+Proof.
+  exists stale_state, stale_dgram, 600.
+  split; [|split; [reflexivity|split; [vm_compute; reflexivity | vm_compute; discriminate]]].
+  unfold pre_cookie. vm_compute. repeat (split; [reflexivity|]). right. repeat split; reflexivity.
+Qed.
+
+(* inside the rate limit the same fragment elicits nothing *)
+Lemma stale_fragment_rate_limited : snd (on_datagram stale_cfg stale_state stale_dgram 300) = [].
+Proof. vm_compute. reflexivity. Qed.
